@@ -18,6 +18,10 @@ Inductive obs_class := OExecutionError | ORuntimeError | OVariablesCoercionError
 Inductive case_C17 :=
 | CStream (fresh : list (option json * list json)) (observed : list (option json))
           (trace : list trace_ev) (ended : bool) (consumed : N)
+| CHistory (fresh : list (option json * list json)) (j : N)
+           (answers : list (option (option json)))   (* per __anext__ call: None = StopAsyncIteration,
+                                                        Some None = another exception, Some (Some r) = a result *)
+           (consumed : N)                            (* source items delivered after those j calls *)
 | CRefusal (q : sub_request) (cls : obs_class) (resolver_called : bool) (consumed : N).
 
 (* the model instantiated: events are indices into the oracle table, the
@@ -75,8 +79,32 @@ Definition model_stream (fresh : list (option json * list json)) :=
   | _ => None
   end.
 
+Fixpoint answers_eqb (model : list (option (option json * list json))) (obs : list (option (option json))) : bool :=
+  match model, obs with
+  | [], [] => true
+  | None :: m', None :: o' => answers_eqb m' o'
+  | Some r :: m', Some x :: o' =>
+      match resp_of r, x with
+      | Some a, Some b => json_eqb (erase_messages a) (erase_messages b)
+      | None, None => true
+      | _, _ => false
+      end && answers_eqb m' o'
+  | _, _ => false
+  end.
+
+Definition model_history (fresh : list (option json * list json)) (j : nat) :=
+  match subscribe unit nat json tt all_ok (seq 0 (length fresh)) with
+  | (Started s0, true, O) => Some (pulls unit nat (option json) json (run_table fresh) j s0)
+  | _ => None
+  end.
+
 Definition agree_C17 (c : case_C17) : bool :=
   match c with
+  | CHistory fresh j answers consumed =>
+      match model_history fresh (N.to_nat j) with
+      | Some (s', rs) => answers_eqb rs answers && (ss_consumed s' =? N.to_nat consumed)
+      | None => false
+      end
   | CStream fresh observed trace ended consumed =>
       match model_stream fresh with
       | Some (s_end, rs) =>
